@@ -484,3 +484,16 @@ PLAN["C18"] = dict(
     assumptions=DRIVER_ASSUME + ["file system contract: open('w') truncates or creates, write appends at the position, rename is atomic, a killed process's "
                                  "completed writes are visible (process kill, not power loss)"],
     jobs=CRASH_JOBS)
+
+CANON_JOBS = []
+for _fl in ("24", "53", "64"):
+    for _e in range(12):
+        CANON_JOBS.append(S("h_canonical@" + _fl, dict(e=_e), ["canonical.raw_draws_per_number", "stub_engine_advance"]))
+PLAN["C10"]["jobs"] = PLAN["C10"]["jobs"] + CANON_JOBS
+PLAN["C10"]["functions"] = PLAN["C10"]["functions"] + ["std::generate_canonical<T, digits, Engine> (libstdc++ 12 generic template, run with T = sym::real)",
+                                                       "hep::random_number_usage<T, Engine>"]
+PLAN["C10"]["outside"] = ("engines of other standard libraries; the engines' own state transition (only min()/max() matter for the draw count); "
+                          "the rounding-only fix-up branch (result >= 1) is infeasible in exact reals - it draws nothing either way")
+PLAN["C10"]["bounds"] = {"quick": ITER_BOUNDS["quick"] + "; draw counts: float/double/long double digits x the (min,max) ranges of all standard engines and 7 "
+                                  "synthetic ranges, every engine output symbolic", "thorough": ITER_BOUNDS["thorough"]}
+PLAN["C04"]["jobs"] = PLAN["C04"]["jobs"] + only(CANON_JOBS, lambda j: j["cfg"]["e"] in (1, 2, 3))
